@@ -93,7 +93,7 @@ Proof.
   destruct hint; cbn [andb];
     destruct (0 <=? v) eqn:A; destruct (v <=? 18446744073709551615) eqn:B;
     destruct (-9223372036854775808 <=? v) eqn:C; destruct (v <=? 9223372036854775807) eqn:D; cbn [andb]; intros S;
-    try (destruct S as [s0 [b0 [u0 S]]]); rewrite S; split; intros X; try discriminate X; try lia;
+    match type of S with ex _ => destruct S as [s0 [b0 [u0 S]]] | _ => idtac end; rewrite S; split; intros X; try reflexivity; try discriminate X; try lia;
     try (destruct X as [X _]; discriminate X); try (split; [reflexivity | lia]).
 Qed.
 
@@ -105,7 +105,7 @@ Proof.
   destruct hint; cbn [andb];
     destruct (0 <=? v) eqn:A; destruct (v <=? 18446744073709551615) eqn:B;
     destruct (-9223372036854775808 <=? v) eqn:C; destruct (v <=? 9223372036854775807) eqn:D; cbn [andb]; intros S;
-    try (destruct S as [s0 [b0 [u0 S]]]); rewrite S; split; intros X; try discriminate X; try lia;
+    match type of S with ex _ => destruct S as [s0 [b0 [u0 S]]] | _ => idtac end; rewrite S; split; intros X; try reflexivity; try discriminate X; try lia;
     try (destruct X as [[X|X] Y]; try discriminate X; lia);
     try (split; [first [left; reflexivity | right; lia] | lia]).
 Qed.
@@ -139,7 +139,7 @@ Proof.
     + apply literal_type_int_iff in E. destruct E as [Hh Hr]. destruct ty; cbn.
       * split; intros X; [discriminate | destruct Hh as [Hh|Hh]; [cbn in Hh; discriminate | lia]].
       * split; intros; [exact Hr | reflexivity].
-  - split; intros X; [discriminate|]. exfalso. destruct ty; cbn in E, X.
+  - split; intros X; [discriminate|]. exfalso. destruct ty; cbn [kind_eqb] in E; cbn in X.
     + assert (literal_type true v = Ok KNat) as Y by (apply literal_type_nat_iff; split; [reflexivity|lia]). congruence.
     + assert (literal_type false v = Ok KInt) as Y by (apply literal_type_int_iff; split; [left; reflexivity|lia]). congruence.
 Qed.
@@ -197,9 +197,7 @@ Proof.
   intros v H. unfold to_unsigned.
   change (Z.shiftl 1 (64 - 1)) with 9223372036854775808. change (Z.shiftl 1 64) with 18446744073709551616.
   cbv zeta.
-  destruct (Z.ltb v (- 9223372036854775808)) eqn:A; [lia|].
-  destruct (Z.ltb (9223372036854775808 - 1) v) eqn:B; [lia|]. cbn [orb].
-  destruct (Z.ltb v 0); reflexivity.
+  repeat match goal with |- context [Z.ltb ?a ?b] => destruct (Z.ltb_spec a b) end; cbn [orb]; try lia; reflexivity.
 Qed.
 
 Lemma shift_width : Z.shiftl 1 INT_WIDTH = 64. Proof. vm_compute. reflexivity. Qed.
@@ -227,7 +225,7 @@ Proof.
   - rewrite (payload_int v H). cbn in H. destruct (Z.ltb v 0) eqn:E.
     + exists (18446744073709551616 + v). unfold denote. rewrite p63, p64.
       destruct (Z.ltb (18446744073709551616 + v) 9223372036854775808) eqn:F; repeat split; try lia.
-      symmetry. rewrite Z.add_comm. rewrite <- (Z.mul_1_l 18446744073709551616) at 1. rewrite Z.mod_add by lia. apply Z.mod_small. lia.
+      apply Z.mod_unique_pos with (q := -1); lia.
     + exists v. unfold denote. rewrite p63, p64.
       destruct (Z.ltb v 9223372036854775808) eqn:F; repeat split; try lia.
       symmetry. apply Z.mod_small. lia.
